@@ -19,7 +19,7 @@ RULE = ('exhaustive units: every pair of method subsets of {GET,HEAD,POST,PUT,AN
         'Non-trivial = the dispatch needed a fallback, a 405 or a case conversion; distinct = distinct (table, verb, path).')
 PYOPT = {'quick': 1, 'thorough': 1}     # one unit of every kind is also served by an interpreter started with -O (assert statements compiled out)
 REQUIRED = ['units_run_under_python_-O', 'own_verb', 'head_to_get', 'to_any', 'head_to_any', 'status_405', 'status_404', 'allow_compared', 'lowercase_request_verb',
-            'lowercase_registration', 'rejected_duplicate', 'overwritten', 'removed_method', 'head_no_body', 'resolve_compared', 'empty_table_405', 'method_names_given_as_a_one_shot_iterator', 'paths_ending_in_a_truncated_utf8_sequence', 'respelled_rule', 'candidates_given_as_a_tuple', 'removed_names_given_as_a_tuple', 'whole_route_removed_then_possibly_registered_again', 'candidate_lists_of_four_and_more_names', 'verb_replaced_by_a_before_request_hook']
+            'lowercase_registration', 'rejected_duplicate', 'overwritten', 'removed_method', 'head_no_body', 'resolve_compared', 'empty_table_405', 'method_names_given_as_a_one_shot_iterator', 'paths_ending_in_a_truncated_utf8_sequence', 'respelled_rule', 'candidates_given_as_a_tuple', 'removed_names_given_as_a_tuple', 'whole_route_removed_then_possibly_registered_again', 'candidate_lists_of_four_and_more_names', 'verb_replaced_by_a_before_request_hook', 'removal_of_an_empty_selection_of_names']
 EXHAUSTIVE = {'quick': False, 'thorough': True,
               'quick_note': 'complete for one route: all 32 method subsets x 9 verbs x 4 paths',
               'thorough_note': 'complete for two routes: all 32x32 pairs of method subsets x 9 verbs x 4 paths'}
@@ -388,6 +388,11 @@ def seq_unit(ctx, unit):
                     hist.append((op, rule, how))
             elif op in ('remove', 'remove_obj', 'remove_list'):
                 t = w.tables.get(rule)
+                if t is not None and len(hist) % 5 == 0:
+                    # an empty selection of names (a filter that selected nothing) removes nothing
+                    w.app.router[{rule}].remove_method(([], (), set())[len(hist) % 3])
+                    ctx.count('removal_of_an_empty_selection_of_names')
+                    hist.append(('remove_nothing', rule, []))
                 if t is not None:
                     if op == 'remove_list':
                         ms = rng.sample(METHODS + EXT, 2)
